@@ -105,6 +105,9 @@ func runBatch(suiteName string, ses [][]string, emit func(string)) {
 	}
 }
 
+// property a crash of a round process is attributed to (default C06)
+var roundsProp = map[string]string{}
+
 // rounds: monitor rounds that run in their own process (a wedged or crashed endpoint cannot pollute the next)
 var rounds = map[string]func(seed int64, i int) roundResult{}
 
@@ -171,7 +174,11 @@ func runRounds(name string, seed int64, n, par int) []roundResult {
 					last := strings.SplitN(full[j+6:], "\n", 2)[0]
 					replay = map[string]interface{}{"last_frame_hex": last, "stack": st}
 				}
-				r.Violations = append(r.Violations, Violation{Property: "C06", Sig: "panic:" + site, What: fmt.Sprintf("%s round %d (seed %d): the process died with a panic in a library goroutine at %s", name, i, seed, site), Replay: replay})
+				prop := roundsProp[name]
+				if prop == "" {
+					prop = "C06"
+				}
+				r.Violations = append(r.Violations, Violation{Property: prop, Sig: "panic:" + site, What: fmt.Sprintf("%s round %d (seed %d): the process died with a panic in a library goroutine at %s", name, i, seed, site), Replay: replay})
 			}
 			res[i] = r
 		}(i)
